@@ -31,7 +31,7 @@ func runC19(c *Ctx) {
 	c.rule("skip-matches-width", "after a separator the next word starts at key + 1 for an ASCII separator constant, or key + utf8.RuneLen(separator) for the parameterised decoder; at an upper-case boundary it starts at the key itself", 4)
 	c.rule("initialism-table", "the initialism table consists of non-empty, upper-case constants assigned once, and every scan of it is complete (no early exit that depends on the table's order)", 2)
 	c.rule("initialism-longest", "wherever a word is cut after a table entry (s[len(x):]) the entry is the longest candidate: candidates come sorted by descending length and are taken from the front (or the scan is first-match over a table in which no entry is preceded by a proper prefix of it); the recursive split backs off to shorter candidates, and the greedy cut is only a fallback after the complete split failed", 4)
-	c.rule("tail-flushed", "after a decoder's scan loop a non-empty remainder s[boundary:] is always appended as the last word (the guards of the tail append are evaluated for all boundary <= len(s) <= 3)", 4)
+	c.rule("tail-flushed", "after a decoder's scan loop a non-empty remainder s[boundary:] is always appended as the last word (the guards of the tail append are evaluated for all boundary <= len(s) <= 3)", 3)
 	c.rule("no-text-dropped", "in every decoder loop the word boundary (the index the next word starts at) only advances on paths that have emitted the pending text s[boundary:key], or on which boundary < key is false (nothing pending)", 5)
 	c.rule("upper-words-extracted", "in the Go-identifier decoder a word is lower-cased whole only under word != strings.ToUpper(word); all-upper-case words go through the initialism extractor", 2)
 
@@ -68,7 +68,7 @@ func runC19(c *Ctx) {
 					}
 				}
 			case *ssa.BinOp:
-				if x.Op == token.EQL {
+				if x.Op == token.EQL || x.Op == token.NEQ {
 					if r, ok := constInt(x.Y); ok && r > 0 && r < unicode.MaxRune && !strings.Contains(canon(x.X), "len(") {
 						if ex, isExt := x.X.(*ssa.Extract); isExt {
 							if _, isNext := ex.Tuple.(*ssa.Next); isNext {
@@ -202,6 +202,29 @@ func runC19(c *Ctx) {
 						okLead = true
 					}
 				}
+			}
+		}
+		// ... or, whatever the test is built from (a predicate helper folded back in): whenever IsDigit of the first
+		// rune holds, the paths to the error returns before the scan cover it
+		if !okLead {
+			pb := &predBuilder{name: func(v ssa.Value) string {
+				if ci, ok := v.(*ssa.Call); ok && calleeFullName(ci) == "unicode.IsDigit" && !underLoop(ci) {
+					return "leadingDigit"
+				}
+				return ""
+			}}
+			var g formula = fConst{false}
+			for _, r := range returnsOf(f) {
+				if underLoop(r) || isNilConst(retVals(r)[1]) {
+					continue
+				}
+				g = mkOr(g, pb.pathCond(f.Blocks[0], r.Block()))
+			}
+			fb, fi := map[string]bool{}, map[string]bool{}
+			atomsOf(g, fb, fi)
+			if fb["leadingDigit"] {
+				_, counter := forAll(g, nil, func(e env, fv bool) bool { return !e.B["leadingDigit"] || fv })
+				okLead = counter == ""
 			}
 		}
 		c.check(okLead, "alphabet-agree", relName(f)+"#leading-digit", f.Pos(), "a leading digit is rejected before the scan", "the decoder does not reject a leading digit like its siblings")
@@ -527,7 +550,7 @@ func c19Boundary(c *Ctx, f *ssa.Function) {
 				if n, ok := constInt(x.Y); ok && n == 1 {
 					// under rune == ASCII constant
 					for _, ec := range condsDominating(x.Block()) {
-						if b, ok := ec.Cond.(*ssa.BinOp); ok && b.Op == token.EQL && ec.Val {
+						if b, ok := ec.Cond.(*ssa.BinOp); ok && ((b.Op == token.EQL && ec.Val) || (b.Op == token.NEQ && !ec.Val)) {
 							if r, ok := constInt(b.Y); ok && r > 0 && r < 128 {
 								return
 							}
